@@ -260,8 +260,9 @@ func (c *Ctx) serRoundTrips(n int, stream string) {
 }
 
 func checkC11(c *Ctx) {
-	c.Ev.Coverage.Rule = "tapes from Parse/ParseND, optionally edited in place (Set*, DeleteElems), including one beyond both 64 KiB flush blocks with 24000 strings (distinct + repeated) per run; every serializing CompressMode x a random deserializing mode, per-mode and shared Serializers switching modes, reused destination; checks: Deserialize succeeds, canonical document incl. number types and float flags equal, result passes wf_check, the noasm build reads the same bytes to the same document, the blob's sections are a faithful encoding per the model (ser_check, for any hash), the model's reconstruction of the tape from the sections equals the implementation's, the uncompressed framing model agrees byte for byte, and the model's own round trip (with a collision-rich hash) preserves the denotation. non-trivial = completed round trip; distinct = by (modes, document)"
+	c.Ev.Coverage.Rule = "tapes from Parse/ParseND, optionally edited in place (Set*, DeleteElems), including one beyond both 64 KiB flush blocks with 24000 strings (distinct + repeated) per run; every serializing CompressMode x a random deserializing mode, per-mode and shared Serializers switching modes, reused destination; checks: Deserialize succeeds, canonical document incl. number types and float flags equal, result passes wf_check, the noasm build reads the same bytes to the same document, the blob's sections are a faithful encoding per the model (ser_check, for any hash), the model's reconstruction of the tape from the sections equals the implementation's, the uncompressed framing model agrees byte for byte, and the model's own round trip (with a collision-rich hash) preserves the denotation; a reused Serializer on 120 k (short, short+suffix) string pairs after a call that left the longer string in its buffer (hash-bucket collisions 1 in 2^14). non-trivial = completed round trip; distinct = by (modes, document)"
 	c.serRoundTrips(c.N(700, 8000), "roundtrip")
+	c.c11StaleStrings(c.N(120000, 1500000))
 }
 
 // ---- helper process built with -tags noasm ----
@@ -306,3 +307,50 @@ func (p *noasmProc) close() {
 }
 
 var _ = bytes.Equal
+
+// c11StaleStrings: one Serializer reused across calls; the second document
+// indexes a string and then a longer string that starts with it.  The
+// serializer's string buffer still holds the longer string from the first
+// call right behind the shorter one, so a dedup probe that looked beyond the
+// live part of the buffer (or trusted a stale table entry) would report a hit
+// whenever the two strings share a hash bucket (1 in 2^14: the hash is seeded
+// per process, so the stream simply runs enough pairs).
+func (c *Ctx) c11StaleStrings(n int) {
+	ser := simdjson.NewSerializer()
+	ser.CompressMode(simdjson.CompressNone)
+	des := simdjson.NewSerializer()
+	var pa, pb, back *simdjson.ParsedJson
+	var err error
+	for i := 0; i < n; i++ {
+		short := fmt.Sprintf("k%dq", i)
+		if i%7 == 3 {
+			short = ""
+		}
+		long := short + fmt.Sprintf("_ext%d", i%13)
+		docA := []byte(`["` + long + `"]`)
+		docB := []byte(`["` + short + `","` + long + `","tail"]`)
+		if pa, err = simdjson.Parse(docA, pa); err != nil {
+			return
+		}
+		ser.Serialize(nil, *pa)
+		if pb, err = simdjson.Parse(docB, pb); err != nil {
+			return
+		}
+		blob := ser.Serialize(nil, *pb)
+		var e2 error
+		back, e2 = des.Deserialize(blob, back)
+		c.Ev.Count("stale-string-buffer", []byte(docB), true)
+		got := ""
+		if e2 == nil {
+			it := back.Iter()
+			if a, err := it.MarshalJSON(); err == nil {
+				got = string(a)
+			}
+		}
+		if got != string(docB) {
+			c.Violate("roundtrip", "a reused Serializer returned a different document (string dedup probe against a stale part of its string buffer)", "ser-stale-strings",
+				map[string]interface{}{"first_doc": string(docA), "doc_text": string(docB), "got": trunc(got, 300), "error": fmt.Sprint(e2)})
+			return
+		}
+	}
+}
